@@ -2,9 +2,11 @@
 // /repo packages, run generators + naive reference implementations in-process and report JSON lines).
 //
 // Protocol (stdout, one JSON object per line):
-//   {"t":"viol","key":K,"what":W,"case":{...}}     a violation with its witness
-//   {"t":"sample","v":{...}}                       a sample case for the evidence file
-//   {"t":"sum","evals":N,"hashes":"<16 hex chars per distinct non-trivial case>","counts":{...},"sets":{name:[members]}}
+//
+//	{"t":"viol","key":K,"what":W,"case":{...}}     a violation with its witness
+//	{"t":"sample","v":{...}}                       a sample case for the evidence file
+//	{"t":"sum","evals":N,"hashes":"<16 hex chars per distinct non-trivial case>","counts":{...},"sets":{name:[members]}}
+//
 // The current case is written to $PROBE_CURFILE before it is executed, so that a sanitizer abort or
 // fatal error (which recover() never sees) still leaves the failing input on disk.
 package probe
